@@ -69,6 +69,18 @@ void use_memory_src(It first, It last, E *dest, int n) {
   sink(amc::uninitialized_copy_n(first, n, dest));
 }
 
+// random access, not contiguous, on both sides
+template <class E>
+void use_memory_rr(std::reverse_iterator<const E *> first, std::reverse_iterator<const E *> last, std::reverse_iterator<E *> dest, int n) {
+  sink(amc::uninitialized_copy(first, last, dest));
+  sink(amc::uninitialized_copy_n(first, n, dest));
+  std::reverse_iterator<E *> mf(const_cast<E *>(first.base())), ml(const_cast<E *>(last.base()));
+  sink(amc::uninitialized_move(mf, ml, dest));
+  sink(amc::uninitialized_move_n(mf, n, dest));
+  sink(amc::uninitialized_relocate(mf, ml, dest));
+  sink(amc::uninitialized_relocate_n(mf, n, dest));
+}
+
 // mutable source/destination iterator archetypes
 template <class E, class It>
 void use_memory_dst(E *a, E *b, It it, int n) {
